@@ -109,6 +109,23 @@ def rule_find(model, rep):
               witness="match(-12345, t) formats to '-12345' (6 characters), passes the length check and is answered InvalidTokenError instead of MalformedTokenError")
     rep.check(has_stmt(fn, "token = '%0*d' % (digits, token)"), R, s2, "int tokens zero-padded to digits", "integer codes are zero-padded to the digit count")
     rep.check(has_stmt(fn, "token = _clean_re.sub('', token)"), R, s2, "separators removed", "blanks and dashes in typed codes are ignored")
+    # ... for text and bytes codes alike: the clean-up is applied to the converted text, guarded by nothing but the int / non-int split
+    unit_t = model.unit(T)
+    subs = [a for a in walk_no_nested(fn) if isinstance(a, ast.Assign) and "_clean_re.sub(" in ast.unparse(a.value)]
+    convs = [a for a in walk_no_nested(fn) if isinstance(a, ast.Assign) and ast.unparse(a.value).startswith("to_unicode(token")]
+    ok = False
+    if len(subs) == 1 and len(convs) == 1:
+        guards = []
+        cur = subs[0]
+        while cur is not None and cur is not fn:
+            par = unit_t.parent(cur)
+            if isinstance(par, ast.If):
+                guards.append(ast.unparse(par.test))
+            cur = par
+        ok = guards == ["isinstance(token, int)"] and (convs[0].lineno, convs[0].col_offset) < (subs[0].lineno, subs[0].col_offset) and unit_t.parent(convs[0]) is unit_t.parent(subs[0])
+    rep.check(ok, R, s2 + " separators for str and bytes", "; ".join(ast.unparse(a) for a in convs + subs)[:140],
+              "separators are stripped after the token has been converted to text, for every non-integer token",
+              witness="match(b'332 136', t) raises MalformedTokenError although match('332 136', t) is accepted")
     rep.check(has_stmt(fn, "digits = self_or_cls.digits"), R, s2, "digits from object/class", "digit count from the object")
     # TotpMatch properties
     for q, want in (("TotpMatch.skipped", "self.counter - self.expected_counter"), ("TotpMatch.cache_seconds", "self.totp.period + self.window"),
